@@ -153,6 +153,8 @@ def run(chk):
                key='C10-L|%s|view' % fq)
 
     # ---- O order agreement between list and by-name index on positional replacement
+    chk.rule('C10-X', 'parent and traversal_parent are mutually exclusive: storing a real parent clears traversal_parent')
+    tf.exclusive_parents(chk, c, 'C10-X')
     chk.rule('C10-O', 'a positional replacement inserts the new child at the old child\'s position in the list AND at the old '
                       'child\'s position in indexes[name], so that lookup by name and by position keep the same relative order')
     rc = ix.func('core.ElementList.replace_child')
